@@ -7,10 +7,12 @@ Gate 2 (formula equality): Lean `tb_op shape` == the Rust `*_tmp_bytes` query, o
 Gate 3 (exact window): every modelled operation is run by the real code inside a window with
         `available() == tmp_bytes` carved at several misalignments out of a canary-filled allocation:
         outcome class (ok / take panic / assertion) must equal the model's `run`; canaries intact;
-        result identical under scratch pre-filled with 0x00 and 0xA5; result identical across misalignments.
+        result identical under two different non-zero pre-fills of the scratch; result identical across misalignments.
 Gate 4 (take trace): every take the hook observed must end below the model's peak for that shape
         (one-sided); exact trace equality is counted as a diagnostic.
 Gate 5 (requirement is exact): the real code succeeds in a window of `req` bytes and fails in `req-8`.
+The poulpy-ckks evaluator (21 entries, CKKS_VARIANTS) runs gates 2, 3 on the two reference back ends, the query evaluated at the
+parameter set's largest ciphertext layout; calls it rejects with Err are skipped; gates 4, 5 are not applied to it.
 An operation that panics in its exact-size window violates C12: reported with key "<op>:exact-window"
 (one class key "ring-degree-below-8:exact-window" when it only happens for N < 8; "split_mut:len%64!=0"
 for split_mut).  The corpus holds the shapes of the defects repaired by docs/fixes/01-07: they must stay ok.
@@ -190,12 +192,12 @@ OPS = {
     "vmp_prepare": (sh_vmp, ALL, True, 1),
     "vmp_apply_dft_to_dft": (sh_vmp, ALL, True, 1),
     "vmp_apply_dft": (sh_vmp, ALL, True, 1),
-    "cnv_prepare_left": (sh_cnv, ALL, False, 1),
-    "cnv_prepare_right": (sh_cnv, ALL, False, 1),
-    "cnv_prepare_self": (sh_cnv, ALL, False, 1),
-    "cnv_apply_dft": (sh_cnv, ALL, False, 1),
-    "cnv_by_const_apply": (sh_cnv, ALL, False, 1),
-    "cnv_pairwise_apply_dft": (sh_cnv, ALL, False, 1),
+    "cnv_prepare_left": (sh_cnv, ALL, True, 1),
+    "cnv_prepare_right": (sh_cnv, ALL, True, 1),
+    "cnv_prepare_self": (sh_cnv, ALL, True, 1),
+    "cnv_apply_dft": (sh_cnv, ALL, True, 1),
+    "cnv_by_const_apply": (sh_cnv, ALL, True, 1),
+    "cnv_pairwise_apply_dft": (sh_cnv, ALL, True, 1),
     "lwe_encrypt_sk": (sh_lwe, ALL, True, 1),
     "lwe_decrypt": (sh_lwe, ALL, True, 1),
     "glwe_encrypt_sk": (sh_glwe, ALL, True, 2),
@@ -227,8 +229,8 @@ OPS = {
     "gglwe_encrypt_sk": (sh_gglwe, ALL, True, 2),
     "cmux": (sh_cmux, ALL, True, 2),
     "execute_bdd": (sh_bdd, ALL, True, 32),      # FheUint<u32> packs 32 bits: n must be a multiple of 32
-    "ckks_shift_norm": (sh_none, ["fft64ref", "ntt120ref"], False, 1),      # CKKSImpl is only compiled for the reference back ends here
-    "ckks_shift": (sh_none, ["fft64ref", "ntt120ref"], False, 1),
+    "ckks_shift_norm": (sh_none, ["fft64ref", "ntt120ref"], True, 1),      # CKKSImpl is only compiled for the reference back ends here
+    "ckks_shift": (sh_none, ["fft64ref", "ntt120ref"], True, 1),
     "ggsw_encrypt_sk": (sh_ggsw, ALL, True, 2),
 }
 
@@ -410,13 +412,13 @@ REF = ["fft64ref", "ntt120ref"]
 OPS.update({
     "glwe_tensor_relinearize": (sh_relin, ALL, True, 8),
     "cswap": (sh_cswap, ALL, True, 8),
-    "ckks_rotate": (sh_ckks_rot, REF, False, 8),
-    "ckks_pt_vec_znx": (sh_none, REF, False, 1),
-    "ckks_pt_vec_rnx": (sh_ckks_pt, REF, False, 1),
-    "ckks_extract_pt": (sh_none, REF, False, 1),
-    "ckks_encrypt_sk": (sh_glwe, REF, False, 1),
-    "ckks_decrypt": (sh_glwe, REF, False, 1),
-    "ckks_mul_pt_const": (sh_ckks_pt, REF, False, 1),
+    "ckks_rotate": (sh_ckks_rot, REF, True, 8),
+    "ckks_pt_vec_znx": (sh_none, REF, True, 1),
+    "ckks_pt_vec_rnx": (sh_ckks_pt, REF, True, 1),
+    "ckks_extract_pt": (sh_none, REF, True, 1),
+    "ckks_encrypt_sk": (sh_glwe, REF, True, 1),
+    "ckks_decrypt": (sh_glwe, REF, True, 1),
+    "ckks_mul_pt_const": (sh_ckks_pt, REF, True, 1),
     "glwe_noise": (sh_glwe, ALL, True, 2),
     "gglwe_noise": (sh_noise, ALL, True, 2),
     "ggsw_noise": (sh_noise, ALL, True, 2),
@@ -670,18 +672,18 @@ OPS.update({
     "bdd_2w_to_1w": (sh_bdd_2w, ALL, True, 32),
     "fhe_uint_encrypt_sk": (sh_glwe, ALL, True, 32),
     "fhe_uint_decrypt": (sh_glwe, ALL, True, 32),
-    "ckks_mul": (sh_ckks_mul, REF, False, 8),
-    "ckks_square": (sh_ckks_mul, REF, False, 8),
-    "ckks_mul_pt_vec_znx": (sh_ckks_mul_pt, REF, False, 8),
-    "ckks_mul_pt_vec_rnx": (sh_ckks_mul_pt, REF, False, 8),
-    "ckks_composite_ct": (sh_ckks_mul, REF, False, 8),
-    "ckks_composite_pt_vec_znx": (sh_ckks_mul_pt, REF, False, 8),
-    "ckks_composite_pt_vec_rnx": (sh_ckks_mul_pt, REF, False, 8),
-    "ckks_composite_pt_const": (sh_ckks_mul_pt, REF, False, 8),
-    "ckks_mul_many": (sh_ckks_mul, REF, False, 8),
-    "ckks_dot_product_ct": (sh_ckks_mul, REF, False, 8),
-    "ckks_all_ops": (sh_ckks_all, REF, False, 8),
-    "ckks_all_ops_with_atk": (sh_ckks_all, REF, False, 8),
+    "ckks_mul": (sh_ckks_mul, REF, True, 8),
+    "ckks_square": (sh_ckks_mul, REF, True, 8),
+    "ckks_mul_pt_vec_znx": (sh_ckks_mul_pt, REF, True, 8),
+    "ckks_mul_pt_vec_rnx": (sh_ckks_mul_pt, REF, True, 8),
+    "ckks_composite_ct": (sh_ckks_mul, REF, True, 8),
+    "ckks_composite_pt_vec_znx": (sh_ckks_mul_pt, REF, True, 8),
+    "ckks_composite_pt_vec_rnx": (sh_ckks_mul_pt, REF, True, 8),
+    "ckks_composite_pt_const": (sh_ckks_mul_pt, REF, True, 8),
+    "ckks_mul_many": (sh_ckks_mul, REF, True, 8),
+    "ckks_dot_product_ct": (sh_ckks_mul, REF, True, 8),
+    "ckks_all_ops": (sh_ckks_all, REF, True, 8),
+    "ckks_all_ops_with_atk": (sh_ckks_all, REF, True, 8),
 })
 
 
@@ -1130,6 +1132,122 @@ HEAVY = {"circuit_bootstrapping_execute", "circuit_bootstrapping_key_encrypt_sk"
          "prepare_bdd_key", "fhe_uint_prepare", "bdd_2w_to_1w", "execute_bdd", "blind_rotation_execute", "blind_rotation_key_prepare"}
 
 
+# ---- the poulpy-ckks evaluator in exact windows (reference back ends: `CKKSImpl`).  One entry per query class; `v` selects
+# the API call.  Parameter families of C16's scenario grid: base2k 17 / 19 (FFT64) and 52 (NTT120), 3..9 limbs, operands
+# with unequal metadata, destinations narrower than the operands.  `size` (= `asize`) is the layout handed to the query:
+# the largest ciphertext of the parameter set, as in the library's own tests and examples; `dsz`, `asz`, `bsz` are the
+# limb counts of the destination and of the operands of the call.
+CKKS_VARIANTS = {
+    "ckks_shift_norm": ["add_into", "add_assign", "add_pt_const_rnx_into", "sub_pt_const_rnx_into", "add_pt_const_znx_into", "add_many"],
+    "ckks_pt_vec_znx": ["sub_into", "sub_assign", "add_pt_vec_znx_into", "sub_pt_vec_znx_into", "add_pt_vec_znx_assign"],
+    "ckks_pt_vec_rnx": ["add_pt_vec_rnx_into", "sub_pt_vec_rnx_into", "add_pt_vec_rnx_assign"],
+    "ckks_shift": ["neg_into", "mul_pow2_into", "mul_pow2_assign", "div_pow2_into", "rescale_into", "rescale_assign", "align_assign"],
+    "ckks_rotate": ["rotate_into", "rotate_assign", "conjugate_into", "conjugate_assign"],
+    "ckks_extract_pt": ["-"],
+    "ckks_encrypt_sk": ["-"],
+    "ckks_decrypt": ["-"],
+    "ckks_mul_pt_const": ["rnx_into", "rnx_assign"],
+    "ckks_mul": ["mul_into", "mul_assign"],
+    "ckks_square": ["square_into", "square_assign"],
+    "ckks_mul_pt_vec_znx": ["into", "assign"],
+    "ckks_mul_pt_vec_rnx": ["into", "assign"],
+    "ckks_composite_ct": ["mul_add", "mul_sub"],
+    "ckks_composite_pt_vec_znx": ["mul_add", "mul_sub", "dot"],
+    "ckks_composite_pt_vec_rnx": ["mul_add", "mul_sub", "dot"],
+    "ckks_composite_pt_const": ["mul_add", "mul_sub", "dot"],
+    "ckks_mul_many": ["-"],
+    "ckks_dot_product_ct": ["-"],
+    "ckks_all_ops": ["-"],
+    "ckks_all_ops_with_atk": ["-"],
+}
+CKKS_TENSOR = {"ckks_mul", "ckks_square", "ckks_composite_ct", "ckks_mul_many", "ckks_dot_product_ct", "ckks_all_ops", "ckks_all_ops_with_atk"}
+
+
+def ckks_case(op, be, r, i):
+    """(n, shape) of the i-th exact-window case of a CKKS entry"""
+    ntt = fam(be) == "ntt120"
+    q = 52 if ntt else r.choice([17, 19])
+    # FFT64: N >= 8 (a + b) limbs so that the pairwise buffer of the tensor products is covered (see PAIRWISE_DELEGATE_KEY)
+    n = r.choice([16, 32, 64]) if (ntt or op not in CKKS_TENSOR) else 256
+    v = CKKS_VARIANTS[op][(i // 2) % len(CKKS_VARIANTS[op])]      # i % 2 selects the back end
+    big = r.range(3, 9)                                   # limbs of the largest ciphertext = the layout handed to the query
+    if ntt and op in CKKS_TENSOR:
+        big = r.range(3, 6)
+    lo = max(3 if q >= 30 else 5, big - 3)
+    lo = min(lo, big)
+    sizes = [r.range(lo, big) for _ in range(3)]
+    cls = r.below(4)
+    if cls == 0:
+        sizes = [big, big, big]
+    elif cls == 1:                                        # narrow destination
+        sizes[0] = lo
+        sizes[1] = big
+    else:
+        sizes[r.below(3)] = big
+    dsz, asz, bsz = sizes
+    dl = r.range(4, min(30, q))
+
+    def meta(sz):
+        cap = sz * q
+        d = dl if (r.chance(3, 4) or op == "ckks_mul_many") else r.range(4, min(30, q))      # mul_many: one common log_delta
+        b = r.range(min(cap - d, 3 * d), cap - d)
+        if r.chance(1, 3):
+            b = cap - d
+        return d, b
+    (dd, db), (ad, ab), (bd, bb) = meta(dsz), meta(asz), meta(bsz)
+    src_b = db if v.endswith("assign") else ab
+    pd = r.range(2, min(30, max(2, src_b)))
+    pb = r.range(0, q)
+    if op in ("ckks_pt_vec_znx", "ckks_pt_vec_rnx", "ckks_shift_norm", "ckks_all_ops", "ckks_all_ops_with_atk", "ckks_encrypt_sk",
+              "ckks_decrypt", "ckks_extract_pt"):
+        # a plaintext that can be aligned: log_budget + log_delta >= max_k
+        pd = r.range(2, 40)
+        base = max(q, (min(src_b, ab, db) + pd) // q * q)
+        pb = max(0, base - pd - r.range(0, q - 1)) if base > pd else 0
+    if op in ("ckks_decrypt", "ckks_extract_pt"):
+        pd, pb = dd, r.range(0, db)
+    if op == "ckks_encrypt_sk":
+        pd, pb = dd, min(db, r.range(0, q))
+    ptk = max(1, pd + pb)
+    bsize = -(-ptk // q)
+    d = {"rank": 1, "size": big, "b2k": q, "arank": 1, "asize": big, "ab2k": q, "v": v, "dsz": dsz, "asz": asz, "bsz": bsz,
+         "dd": dd, "db": db, "ad": ad, "ab": ab, "bd": bd, "bb": bb, "pd": pd, "pb": pb, "ptk": ptk, "bsize": bsize,
+         "cre": 1 if i % 3 != 1 else 0, "cim": 1 if i % 3 != 2 else 0}
+    d["bits"] = r.choice([0, 1, 3, r.range(0, 2 * q), q, dl])
+    # the operands of the product as the call sees them
+    if v in ("mul_assign",):
+        (xd, xb, xs), (yd, yb, ys) = (dd, db, dsz), (ad, ab, asz)
+    elif v == "square_assign":
+        (xd, xb, xs), (yd, yb, ys) = (dd, db, dsz), (dd, db, dsz)
+    elif op == "ckks_square" or v == "square_into":
+        (xd, xb, xs), (yd, yb, ys) = (ad, ab, asz), (ad, ab, asz)
+    elif v == "assign" or v == "rnx_assign":
+        (xd, xb, xs), (yd, yb, ys) = (dd, db, dsz), (pd, pb, bsize)
+    elif op in ("ckks_mul_pt_vec_znx", "ckks_mul_pt_vec_rnx", "ckks_mul_pt_const", "ckks_composite_pt_vec_znx", "ckks_composite_pt_vec_rnx",
+                "ckks_composite_pt_const"):
+        (xd, xb, xs), (yd, yb, ys) = (ad, ab, asz), (pd, pb, bsize)
+    else:
+        (xd, xb, xs), (yd, yb, ys) = (ad, ab, asz), (bd, bb, bsz)
+    ct_ct = op in CKKS_TENSOR
+    rlb = (min(xb, yb) - max(xd, yd)) if ct_ct else (xb - yd)
+    rld = min(xd, yd) if ct_ct else xd
+    roff = max(0, rlb + rld - dsz * q)
+    d["ea"] = max(1, min(xs, -(-(xd + xb) // q)))
+    d["eb"] = max(1, min(ys, -(-(yd + yb) // q))) if ct_ct else bsize
+    d["off"] = max(0, (max(xb, yb) + max(xd, yd) + roff) if ct_ct else (bsize * q + roff))
+    if op in CKKS_TENSOR:
+        tsz = big + 1
+        d.update({"tsize": tsz, "tb2k": q, "tdnum": r.choice([tsz, tsz, r.range(1, tsz)]), "tdsize": 1})
+        d["cnt"] = r.range(1, 5)
+        d["levels"] = 0 if d["cnt"] <= 2 else (1 if d["cnt"] <= 4 else 2)
+    else:
+        d["cnt"] = r.range(1, 4)
+    if op in ("ckks_rotate", "ckks_all_ops_with_atk"):
+        ksz = big + 1
+        d.update({"krin": 1, "krout": 1, "ksize": ksz, "kb2k": q, "dnum": r.choice([ksz, r.range(1, ksz)]), "dsize": 1})
+    return n, d
+
+
 def fixup(op, d):
     """dependent fields after the boundary class changed the sizes: effective limb counts never exceed their operand"""
     if "ea" in d:
@@ -1169,6 +1287,8 @@ def fail_key(op, n, be=""):
     if op == "split_mut":
         return "split_mut:len%64!=0"
     if op in PAIRWISE_DELEGATE_OPS and 8 <= n <= 32 and fam(be) == "fft64":
+        return PAIRWISE_DELEGATE_KEY
+    if op == "cnv_pairwise_apply_dft":      # the query itself, called as documented (cnv_offset, res_size, ..): any ring, both families
         return PAIRWISE_DELEGATE_KEY
     return f"{op}:exact-window" if n >= 8 else "ring-degree-below-8:exact-window"
 
@@ -1266,6 +1386,8 @@ def run(ctx):
             cases.append(dict(op=op, be=be, n=n, shape=gen(r, True), mis=0, win=None, kind="tb"))
         grid = GRID.get(op)
         cnt = n_shapes if op not in HEAVY else max(len(bes), n_shapes // 5)
+        if op in CKKS_VARIANTS:                       # every variant at least twice on each family
+            cnt = max(cnt, 4 * len(CKKS_VARIANTS[op]))
         if grid is not None:                          # every cell of the grid on both families (quick) / all four back ends
             cnt = len(grid.cells) * (2 if quick else 4)
         for i in range(cnt):
@@ -1276,6 +1398,13 @@ def run(ctx):
             # two thirds of the shapes at N >= 8, the rest at N < 8 (sub-64-byte limbs)
             n = r.choice([x for x in ns if x >= 8]) if i % 3 != 2 else r.choice([x for x in ns if x < 8] or ns)
             shape = gen(r, False)
+            if op in CKKS_VARIANTS:                   # the evaluator: exact windows only (the class tree over-approximates the variants)
+                n, shape = ckks_case(op, be, r, i)
+                # thorough: all 8 misalignments 0, 8, …, 56
+                mis_list = [0] + ([8 * r.range(1, 7) for _ in range(n_mis - 1)] if quick else [8 * j for j in range(1, 8)])
+                for m in mis_list:
+                    cases.append(dict(op=op, be=be, n=n, shape=shape, mis=m, win=None, kind="exact"))
+                continue
             if op == "glwe_pack":
                 logn = n.bit_length() - 1
                 shape["gap"] = r.range(0, logn)
@@ -1369,12 +1498,15 @@ def run(ctx):
     failing_ops = {}       # key -> first witness
     failing_ops_all = {}   # key -> operations
     outs = {}              # (op, be, n, shape) -> out hash, must not depend on misalignment
+    ckks_acc = {}          # (op, variant, family) -> [accepted shapes, rejected shapes]
     classes = {}
     for k, (c, m, r) in enumerate(zip(cases, m2, h)):
         op = c["op"]
         word = r.get("_word")
         if word in ("skip",):
             stats["skipped"] += 1
+            if op in CKKS_VARIANTS and c["mis"] == 0:        # the evaluator answered Err: the scratch is irrelevant
+                ckks_acc.setdefault((op, c["shape"]["v"], fam(c["be"])), [0, 0])[1] += 1
             continue
         if word in ("bad-op", "setup-panic") or "tb" not in r:
             broken.append(f"harness cannot run case: {hline(k, c)} -> {word}")
@@ -1424,8 +1556,15 @@ def run(ctx):
                     ctx.violation(f"{op}: result depends on the misalignment of the scratch window",
                                   {"case": hline(k, c), "implementation": hout[k]}, True, key=f"{op}:misalignment-dependent")
                 outs.setdefault(key, r["out"])
-            # gate 4: trace covered by the model's layout
-            if mrun == "ok":
+            # gate 4: trace covered by the model's layout (the evaluator's entries are classes of calls whose tree is the
+            # largest member's, with the operands' effective sizes of the first term only: counted, not required)
+            if op in CKKS_VARIANTS:
+                if c["mis"] == 0:
+                    ckks_acc.setdefault((op, c["shape"]["v"], fam(c["be"])), [0, 0])[0] += 1
+                stats["ckks_exact_ok"] = stats.get("ckks_exact_ok", 0) + 1
+                if mrun == "ok" and int(r["peak"]) <= int(m["peak"]):
+                    stats["ckks_trace_covered"] = stats.get("ckks_trace_covered", 0) + 1
+            elif mrun == "ok":
                 if int(r["peak"]) <= int(m["peak"]):
                     stats["trace_covered"] += 1
                 else:
@@ -1472,11 +1611,54 @@ def run(ctx):
         w["operations"] = sorted(failing_ops_all[fkey])
         ctx.violation(f"{who}: panics in a scratch window of exactly its tmp_bytes ({w['tmp_bytes']} < required {w['required']})",
                       {"witness": w}, True, key=fkey)
+    # ---- contract probe (informational): the evaluator's queries take one ciphertext layout and hand it to the inner queries as
+    # destination AND operands; the library's tests and examples pass the parameter set's largest layout.  Evaluated at a
+    # narrower destination's own layout they do not cover wider operands: counted here, with one witness per entry.
+    pr = rng.fork()
+    plines, pmeta = [], []
+    for op, v in (("ckks_mul", 0), ("ckks_square", 0), ("ckks_rotate", 0), ("ckks_composite_ct", 0), ("ckks_mul_pt_vec_znx", 0)):
+        for be in REF:
+            got = 0
+            for _try in range(200):
+                n_, sh = ckks_case(op, be, pr, 2 * v)
+                if sh["dsz"] >= sh["size"] or sh["asz"] <= sh["dsz"]:
+                    continue
+                sh["size"] = sh["dsz"]
+                # the plaintext products' queries do have an operand parameter: (destination layout, operand layout)
+                sh["asize"] = sh["asz"] if op == "ckks_mul_pt_vec_znx" else sh["dsz"]
+                plines.append(f"{len(plines)} {op} be={be} n={n_} {kvs(sh)} mis=0")
+                pmeta.append(op)
+                got += 1
+                if got == (3 if quick else 12):
+                    break
+    rc, pout, err = ctx.run_lines(binp, ["scratch"], plines, timeout=600)
+    probe = {}
+    for line, o, op in zip(plines, pout, pmeta):
+        r = parse(o)
+        w = r.get("_word") or r.get("run", "?")
+        d = probe.setdefault(op, {"ok": 0, "panic": 0, "rejected": 0})
+        d["rejected" if w == "skip" else ("ok" if w == "ok" else "panic")] += 1
+        if w in ("need", "take") and "witness" not in d:
+            d["witness"] = f"{line} -> {o[:120]}"
+    ctx.cov["ckks_query_at_destination_layout_with_wider_operands"] = probe
+
+    # ---- the evaluator: every variant of every entry accepted (and run) on both families; at most half of the shapes rejected
+    ctx.cov["ckks_accepted_rejected"] = {f"{o}:{v}:{f}": a for (o, v, f), a in sorted(ckks_acc.items())}
+    for op, vs in CKKS_VARIANTS.items():
+        acc = sum(a[0] for (o, _, _), a in ckks_acc.items() if o == op)
+        rej = sum(a[1] for (o, _, _), a in ckks_acc.items() if o == op)
+        if acc < rej:
+            broken.append(f"{op}: the evaluator rejects {rej} of {acc + rej} generated calls")
+        for v in vs:
+            for f in ("fft64", "ntt120"):
+                if ckks_acc.get((op, v, f), [0, 0])[0] == 0:
+                    broken.append(f"{op} v={v}: no accepted call ran on {f}")
     ctx.cov["per_operation"] = by_op
     ctx.cov["stats"] = stats
     ctx.cov["failing_keys"] = {k: sorted(v) for k, v in sorted(failing_ops_all.items())}
     ctx.cov["classes_aligned_x_outcome"] = {f"aligned={a} run={b}": v for (a, b), v in sorted(classes.items())}
     ctx.cov["operations_modelled"] = len(OPS)
+    ctx.cov["operations_formula_only"] = sorted(o for o, v in OPS.items() if not v[2])
     ctx.log("stats", stats)
     ctx.log("failing keys:", ", ".join(sorted(failing_ops.keys())))
     if broken:
